@@ -14,7 +14,8 @@ def single_defs(fnode):
         if isinstance(n, ast.Assign):
             for t in n.targets:
                 for nm in ast.walk(t):
-                    if isinstance(nm, ast.Name):
+                    if isinstance(nm, ast.Name) \
+                            and isinstance(nm.ctx, ast.Store):
                         counts[nm.id] = counts.get(nm.id, 0) + 1
                         if isinstance(t, ast.Name):
                             vals[nm.id] = n.value
@@ -24,7 +25,7 @@ def single_defs(fnode):
                 counts[t.id] = counts.get(t.id, 0) + 2
         elif isinstance(n, (ast.For, ast.comprehension)):
             for nm in ast.walk(n.target):
-                if isinstance(nm, ast.Name):
+                if isinstance(nm, ast.Name) and isinstance(nm.ctx, ast.Store):
                     counts[nm.id] = counts.get(nm.id, 0) + 2
         elif isinstance(n, ast.arg):
             counts[n.arg] = counts.get(n.arg, 0) + 2
